@@ -168,8 +168,12 @@ def decide(pid, tier, drv):
         print("KNOWN-FINDING: property=%s %s" % (pid, k[0]["what"]))
     if violations:
         os.makedirs(os.path.join(ROOT, "replays"), exist_ok=True)
-        # replay at most a handful of harnesses (each replay recompiles); the rest is listed unreplayed
+        # replay the cheapest failing harness first; stop at the first natively confirmed violation
+        # (each replay is a second full solver run plus a native build), try at most three
+        violations.sort(key=lambda rf: rf[0].get("wall_s", 0))
         for r, fails in violations[:3]:
+            if reported:
+                break
             confirmed, unconfirmed = confirm(drv, pid, r, fails)
             tag = hashlib.sha256((r["harness"] + "|".join(f["desc"] for f in fails)).encode()).hexdigest()[:10]
             path = os.path.join(ROOT, "replays", "%s-%s.json" % (pid, tag))
@@ -181,6 +185,9 @@ def decide(pid, tier, drv):
                 print("VIOLATION property=%s replay=%s" % (pid, path))
                 for c in confirmed[:4]:
                     print("  harness=%s check=%s" % (r["harness"], c["check"]))
+                for r2, f2 in violations:
+                    if r2 is not r:
+                        print("  also failing (not replayed): harness=%s check=%s" % (r2["harness"], f2[0]["desc"]))
                 replay_paths.append(path)
                 reported += 1
                 exit_code = 1
